@@ -3,7 +3,8 @@ from props_common import COMMON_TRUSTED
 CONFIG = {
     "areas": ["conc"],
     "lean": ["VProps.C19"],
-    "sources": ["VProps/C19.lean", "VProofs/ConcDns.lean", "VProofs/ConcFetch.lean", "VModel/ConcDns.lean", "VModel/ConcFetch.lean"],
+    "sources": ["VProps/C19.lean", "VProofs/ConcDns.lean", "VProofs/ConcFetch.lean", "VModel/ConcDns.lean", "VModel/ConcFetch.lean",
+                "VModel/ConcVerify.lean", "VProofs/ConcVerify.lean", "VModel/KeyRing.lean", "VProofs/KeyRing.lean"],
     "theorems": [
         "V.C19.dns_size_bounded", "V.C19.dns_no_dup_keys", "V.C19.dns_no_stale_served", "V.C19.dns_right_host",
         "V.C19.linearizable_lookup_partial", "V.C19.dns_mutex_owner", "V.C19.dns_lockset_discipline", "V.C19.dns_no_deadlock", "V.C19.dns_evict_terminates", "V.C19.dns_lookup_terminates", "V.C19.dns_disabled_of_size_le_zero",
@@ -15,6 +16,9 @@ CONFIG = {
         "V.C19.transport_no_dup", "V.C19.transport_lockset_discipline", "V.C19.event_accessors_read_only", "V.C19.event_id_same_for_all",
         "V.C19.sync_skeleton_dns_lookup", "V.C19.sync_skeleton_dns_dialcontext", "V.C19.sync_skeleton_transport",
         "V.C19.sync_skeleton_fetchkeys", "V.C19.sync_skeleton_eventid",
+        "V.C19.verify_store_only_fetched", "V.C19.verify_entry_after_move", "V.C19.verify_no_lost_update", "V.C19.verify_db_initial_or_world",
+        "V.C19.verify_serializable_one_writer", "V.C19.verify_silent_of_failing_fetchers", "V.C19.verify_interleaving_is_sequential",
+        "V.C19.verify_progress",
     ],
     "rule": "ONE op = one whole concurrent scenario + schedule, run on the real code with the interleaving controlled at "
             "atomic-region granularity (scripted resolver / key client block each goroutine in its unlocked call until released). "
@@ -32,7 +36,19 @@ CONFIG = {
             "moves over 3 TLS server names: getTransport, `idle for 2 x lifetime` / `idle for lifetime - 1 min` (lastUsed moved back), "
             "one reaper pass; every move runs under a 4 s timeout, the trace lists the transport returned (by identity) and the cached "
             "names after each move, `H` = the move never finished; model = Transport.trun, specification = every move finishes, a hit "
-            "returns the cached transport, a miss a fresh one, a reaper pass removes exactly the idle transports. conc.race_*: unscripted stress under the race detector "
+            "returns the cached transport, a miss a fresh one, a reaper pass removes exactly the idle transports. "
+            "conc.verify2: 2-3 concurrent KeyRing.VerifyJSONs calls on ONE key ring with ONE shared key database (a map behind a mutex) and a "
+            "scripted fetcher that tells the callers apart by a context value; every call is stopped before each of the three calls that "
+            "leave the key ring (database read, fetcher, database store) and the schedule says which caller runs to its next barrier: "
+            "1-2 servers, database / world entries absent | right key | other key x fresh | past validity | expired, per caller the fetch "
+            "fails / answers the world / answers nothing, 1-2 requests (before / after the stale validity, strict / lenient); ALL 70 "
+            "interleavings of two callers' moves (plus a third caller afterwards) for four fixed configurations around the audit's scenario "
+            "(stale database entry, one failing and one answering fetch) on every run, seeded sample of the rest, thorough enumerates one "
+            "server x every database / world entry x fetch behaviour and all 1680 schedules of three overlapping callers; outcome = trace + "
+            "each caller's verdicts + final database; model = Verify.poke move by move; specification = the outcomes of the sequential "
+            "orders compatible with real time (a caller that returned before another started stays in front), computed with the sequential "
+            "model of C12: the whole outcome must be one of them where at most one caller's fetcher answers (verify_serializable_one_writer), "
+            "each caller's verdicts and the final database must each be those of one of them where several answer. conc.race_*: unscripted stress under the race detector "
             "(thorough). An op is non-trivial when its trace has >= 4 moves; distinct by op line",
     "nontrivial": lambda op, impl: impl.count("|") >= 3 or impl.count("#") >= 1 and len(impl) > 8 or impl in ("clean", "race-detected"),
     "trusted": COMMON_TRUSTED + [
@@ -50,6 +66,15 @@ CONFIG = {
         "linearizable_lookup_partial: every result is one the sequential specification of its own op allows (right addresses; failure only if that lookup's own resolver call failed); the cached/not-cached flag and the map contents are not claimed to match one sequential execution (two concurrent misses of a name both resolve)",
         "destinationTripper.getTransport / reaper: modelled (one locked region each: transport_no_dup, transport_get_spec, transport_reap_spec), compared with the real code move by move through time (conc.transport: sequences of getTransport / idle periods / reaper passes, each call under a timeout) and stress-tested under the race detector; interleavings INSIDE a region are not enumerated (a region is one critical section of transportsMutex); RoundTrip itself needs TLS connections and is not driven",
         "conc.fetch2: a caller whose context is cancelled gets whatever its finished requests brought (the specification only demands that it holds no entry no server gave); the claim 'sequential result' is made for callers whose own context stays live",
-        "the KeyDatabase given to a KeyRing is the caller's and must be thread-safe on its own",
+        "the KeyDatabase given to a KeyRing is the caller's and must be thread-safe on its own; conc.verify2 / VModel.ConcVerify take it to be a map "
+        "whose FetchKeys (entries of the requested keys) and StoreKeys (entry-wise overwrite) are each atomic",
+        "KeyRing.VerifyJSONs under concurrency: proved for every number of callers and every schedule — a store writes only entries its own "
+        "caller fetched (verify_store_only_fetched), an entry of the one remote world is never replaced once stored (verify_no_lost_update), "
+        "and where at most one caller ever has something to store every interleaving is a sequential execution, results and database "
+        "(verify_serializable_one_writer / verify_interleaving_is_sequential; the order found is also compatible with real time, which the "
+        "theorem does not state). PARTIAL where several callers' fetchers answer: two callers that both read the database before either "
+        "stores each behave as if they were first (both fetch; requests that passed on the stale entries stay passed), which no single "
+        "sequential order reproduces when the remote answer is WORSE for some request than the stale entry was; there the specification "
+        "stream demands each caller's verdicts and the final database separately to be sequential ones (checked by enumeration, not proved)",
     ],
 }
